@@ -793,8 +793,12 @@ func plainStepGuard(v ssa.Value) bool {
 		if n, ok := types.Unalias(x.X.Type()).(*types.Named); ok && n.Obj().Name() == "NT" {
 			return true
 		}
-		if isLenOf(x.X, nil) || isLenOf(x.Y, nil) {
-			return true
+		// the size of the incoming node-set (a value of the NodeSet type); the length of anything else - the children
+		// of the context node, say - makes the pass depend on the node
+		for _, side := range []ssa.Value{x.X, x.Y} {
+			if c, ok := side.(*ssa.Call); ok && isLenOf(c, nil) && theWorld != nil && types.Identical(c.Call.Args[0].Type(), theWorld.Roles().NodeSet) {
+				return true
+			}
 		}
 		if isNilConst(x.Y) || isNilConst(x.X) {
 			return true
@@ -1043,6 +1047,10 @@ func checkC18(w *World) {
 	}
 	delete(w.floors, P+"|R02.6")
 	w.floor(P, "R18.5", 1)
+	// P/f() = f(P): the zero-argument forms of the node functions read the same node of the context as the
+	// one-argument forms read of their argument (the first in document order)
+	w.include(P, "C12", "R12.3")
+	w.include(P, "C04", "R04.5")
 }
 
 // selectorLocal: the selector treats every node of the incoming node-set independently: the parameter is only
